@@ -244,3 +244,18 @@ Example C16_example_ring_programs :
                             (p_ring_pull_v_r_closed, 0%Z)] [(p_ring_pull_a_r_buffer, [5; 8]%Z)]) = ORet [VZ 5%Z; VZ 1%Z] st' /\
                A st' p_ring_pull_a_r_buffer = [0; 8]%Z /\ V st' p_ring_pull_v_r_readIndex = 1%Z).
 Proof. split; [vm_compute; reflexivity|eexists; split; [vm_compute; reflexivity|split; reflexivity]]. Qed.
+
+(* determinism of the semantics (GVL.Imp.bs_det) makes the statement two-sided: ANY run of the translated Push from a
+   state that holds r returns what rpush says *)
+Theorem C16_push_program_only_the_model : forall r x st o, wfr r ->
+  holds p_ring_push_v_r_size p_ring_push_v_r_readIndex p_ring_push_v_r_writeIndex p_ring_push_v_r_closed p_ring_push_a_r_buffer st r ->
+  V st p_ring_push_v_data = enc x -> bs p_ring_push st o ->
+  match rpush r x with
+  | PushOk r' => exists st', o = ORet [VZ 1%Z] st' /\
+      holds p_ring_push_v_r_size p_ring_push_v_r_readIndex p_ring_push_v_r_writeIndex p_ring_push_v_r_closed p_ring_push_a_r_buffer st' r'
+  | PushFull => exists st', o = ORet [VZ 0%Z] st' /\
+      holds p_ring_push_v_r_size p_ring_push_v_r_readIndex p_ring_push_v_r_writeIndex p_ring_push_v_r_closed p_ring_push_a_r_buffer st' r
+  | PushPanic => o = OPanic
+  end.
+Proof. exact push_program_only_the_model. Qed.
+Print Assumptions C16_push_program_only_the_model.
